@@ -166,6 +166,20 @@ def call(entry, payload, ver, allow_custom):
         return None, exc
     if entry == "parse_observable":
         return core.guarded(stix2.parse_observable, payload, allow_custom=allow_custom, version=ver, _valid_refs={"*": "*"} if ver == "2.0" else None)
+    if entry == "fs-sink":
+        import shutil
+        import tempfile
+        tmp = tempfile.mkdtemp(prefix="c04-")
+        try:
+            sink = stix2.FileSystemSink(tmp, allow_custom=allow_custom)
+            _, exc = core.guarded(sink.add, payload)
+            if exc is not None:
+                return None, exc
+            src = stix2.FileSystemSource(tmp, allow_custom=True)
+            got, exc2 = core.guarded(src.query)
+            return ((got[0] if got else None), None) if exc2 is None else (None, None)
+        finally:
+            shutil.rmtree(tmp, ignore_errors=True)
     if entry == "memory-store":
         store = stix2.MemoryStore(allow_custom=allow_custom)
         _, exc = core.guarded(store.add, payload)
@@ -208,7 +222,7 @@ def check_case(case):
                 fails.append(("control-flagged-custom:%s" % kind, "has_custom is True for non-custom content"))
             return fails
         if exc is None:
-            fails.append(("custom-admitted-strict:%s:%s" % (site, "store" if entry == "memory-store" else "parse/construct"),
+            fails.append(("custom-admitted-strict:%s:%s" % (site, "store" if entry in ("memory-store", "fs-sink") else "parse/construct"),
                           "%s(allow_custom=False) returned %s for custom content (%s): %s" % (entry, type(res).__name__, kind, core.short(payload, 500))))
         return fails
     # permissive
@@ -241,6 +255,8 @@ def entries_for(doc, ver):
     e = ["parse", "parse-text", "constructor", "bundle-dict", "memory-store", "constructor-prebuilt"]
     if t not in m.observables:
         e.append("bundle-prebuilt")
+    if "id" in doc:
+        e.append("fs-sink")
     if t in m.observables and ver == "2.1":
         e.append("parse_observable")
     if t not in m.observables:
